@@ -649,9 +649,14 @@ impl ISocket for RouterSocket {
         .strategy
         .prepare_wire_frames(destination_identity_msg, frames, &self.framing);
 
-    // Final flag setting on the last frame
-    if let Some(last_frame) = zmtp_wire_frames.last_mut() {
-      last_frame.set_flags(last_frame.flags() & !MsgFlags::MORE);
+    // Normalise flags: MORE on every frame but the last, so the batch is one message on the wire.
+    let num_wire_frames = zmtp_wire_frames.len();
+    for (i, frame) in zmtp_wire_frames.iter_mut().enumerate() {
+      if i + 1 < num_wire_frames {
+        frame.set_flags(frame.flags() | MsgFlags::MORE);
+      } else {
+        frame.set_flags(frame.flags() & !MsgFlags::MORE);
+      }
     }
 
     // 5. Send the message.
